@@ -118,6 +118,7 @@ type gen struct {
 	pureCache   map[*SpecFunc]bool
 	finalVals   map[*ssa.FreeVar]Val
 	known       map[string]Finding
+	hide        func(name string) bool // spec functions kept uninterpreted (lemma proofs with hide/except)
 	canaryDone  bool
 	lockSiteOrd map[interface{}]int
 	inPanicExit bool
